@@ -513,7 +513,8 @@ impl Gen {
 		self.positive = true;
 		if self.halts && !self.no_plateau && self.calls > 3 {
 			if self.halt_left == 0 && self.rng.chance(0.035) {
-				self.halt_left = 3 + self.rng.below(40) as u32;
+				// short halts are the likelier ones (a halt of exactly period - 1 or period bars is what window guards are sensitive to)
+				self.halt_left = if self.rng.chance(0.6) { 1 + self.rng.below(16) as u32 } else { 3 + self.rng.below(40) as u32 };
 			}
 			if self.halt_left > 0 && self.cur > 0.0 {
 				self.halt_left -= 1;
